@@ -46,7 +46,9 @@ func (node *tagIfchangedNode) Execute(ctx *ExecutionContext, writer TemplateWrit
 			if err != nil {
 				return err
 			}
-			nowValues = append(nowValues, val)
+			// Remember a copy: the evaluated value may be a live view of a field that
+			// changes until the next execution (e.g. forloop.Counter)
+			nowValues = append(nowValues, AsValue(val.Interface()))
 		}
 
 		// Compare old to new values now
